@@ -27,7 +27,7 @@ COORDS = dict(
     offset=['0', '+d', '-d'],
     fbase=['SSSS', 'CCCC', 'FFFF', 'CFFF', 'generic'],
     ord=list(range(len(ORDS))),
-    sub=['none', 'full', 'lo', 'mid', 'hi'],
+    sub=['none', 'full', 'lo', 'mid', 'hi', 'wide'],
     place=['none', 'shift', 'tail', 'head'],
     preload=[0, 1, 2, 3, 4],
     finalize=[1, 0],
